@@ -228,6 +228,14 @@ func (s *Server) verifyConsensusFieldMain(cp *params.CaravelParams, seedHeader *
 		logging.Error("VerifyHeader failed. Get consensus data failed.", err)
 		return errInvalidConsensusData
 	}
+	// The committee sizes are fixed by the protocol version in force for this round (cp), which is what every
+	// proposer and voter runs its sortition with.  They are also copied into the header, and the checks below read
+	// them from there: a header declaring other values must be rejected, otherwise its author chooses the quorum.
+	if consensusData.ProposerThreshold != cp.ProposerThreshold || consensusData.ValidatorThreshold != cp.ValidatorThreshold {
+		logging.Error("VerifyHeader failed. Declared thresholds differ from the protocol's.", "Round", consensusData.Round,
+			"proposerTh", consensusData.ProposerThreshold, "validatorTh", consensusData.ValidatorThreshold)
+		return errInvalidConsensusData
+	}
 	// get block proposer's public key and VRF public key
 	pubKey, err := consensusData.GetPublicKey()
 	if err != nil {
